@@ -15,7 +15,7 @@ CHECKS = {
              "detects two workers inside one thread object, queue push/pop and staged/converted counts must balance at "
              "quiescence. Held on the executions observed (millions of task phases, steals, recycles per run).",
         note="Trusts the hook placement (before/after the coroutine call) and the harness ledger; interleavings are "
-             "sampled with OS-level delays at hook points, not enumerated; 48-bit state tag wrap-around out of reach.",
+             "sampled with OS-level delays at hook points, not enumerated; 48-bit state tag wrap-around out of reach. Second-round seeded change in the shared-priority holder needed the sustained class (16 workers, 600000 short tasks).",
         ref="DESIGN.md section 2, C01"),
     "C02": dict(
         technique="runtime monitoring: one-shot waiter/waker ledger + state-based quiescence watchdog + single-runner monitor; "
@@ -42,7 +42,7 @@ CHECKS = {
              "(plain OS threads): notify_all, W x notify_one, timed waits notified before the deadline, stop_token waits. The notifier "
              "is launched by the last registrant and takes the user lock first, so every registered waiter must be woken.",
         note="Latency of timed waits not judged; lock types limited to pika::mutex and std::mutex; D14 (timed wait on a plain OS "
-             "thread deadlocks the notifier) is a listed known finding.",
+             "thread deadlocks the notifier) is a listed known finding. Round kind timed_edge: one notify_one at the common deadline of 2-8 timed waiters with an untimed waiter behind them.",
         ref="DESIGN.md section 2, C07"),
     "C08": dict(
         technique="runtime monitoring: shadow permit count (raised before release, lowered after acquire), blocked-acquirer rounds with "
@@ -97,7 +97,7 @@ CHECKS = {
         text="Exploration: thousands of bulk invocations per run over all small shapes, chunk-size boundaries, random shapes, six integral "
              "shape types, 0/1/3 predecessor values, five ways for the predecessor to reach the pool, throwing index sets, plus single "
              "shapes beyond 2^31 and 2^32; hook delays inside the index queue's load/CAS window.",
-        note="D3 (32-bit chunk arithmetic) was found here and fixed; shape types narrower than int do not compile and are not judged.",
+        note="D3 (32-bit chunk arithmetic) was found here and fixed; shape types narrower than int do not compile and are not judged. D24 (last chunk skipped for the largest value of the shape type) found by a fresh seed and fixed; type-max cases are deterministic now.",
         ref="DESIGN.md section 2, C11"),
     "C10": dict(
         technique="runtime monitoring: every callable records pool/worker/task identity/OS thread in every phase and is compared with the "
@@ -139,7 +139,7 @@ CHECKS = {
                   "quiescence watchdog for never-granted accesses; TSan/ASan as extra oracles",
         text="Exploration: thousands of random request sequences per run on async_rw_mutex<T> and <void> with every start placement "
              "(now, later, pool task, OS thread, dropped), wrapper copies and releases on other threads, early mutex destruction.",
-        note="Requests are retrieved from one thread as the API requires; interleavings sampled (no hooks inside async_rw_mutex).",
+        note="Requests are retrieved from one thread as the API requires; interleavings sampled (no hooks inside async_rw_mutex). Race mode: 10^6 rounds per case of release-vs-start between two aligned OS threads.",
         ref="DESIGN.md section 2, C04"),
     "C03": dict(
         technique="runtime monitoring: reference interpreter over run-time generated sender terms (set of admissible completions), "
@@ -150,7 +150,7 @@ CHECKS = {
              "static shapes x channel x timing, and thousands of rounds starting 2-4 consumers of one split/split_tuple at the same "
              "instant from different threads; hook delays in the shared-state done/add-continuation window.",
         note="D2 (stopped lost in split/split_tuple/when_all_vector) and D17 (split_tuple shared state freed under its predecessor) "
-             "were found here and fixed. sync_wait/start_detached are only used where pika defines their behaviour.",
+             "were found here and fixed. sync_wait/start_detached are only used where pika defines their behaviour. Static shapes 16-19 put drop_operation_state behind adaptors that keep the error in their own operation state.",
         ref="DESIGN.md section 2, C03"),
     "C18": dict(
         technique="runtime monitoring: reference-model comparison of random wrapper histories (logical objects with per-copy call state), "
@@ -196,7 +196,7 @@ CHECKS = {
              "variant. Coverage counters show how many requests went through the poller and how many callbacks were run by a worker "
              "other than the one that tested the request.",
         note="Self-addressed transfers only (one rank); Open MPI is uninstrumented, so no sanitizer leg; mpix continuation modes are not "
-             "available. D22 (second completion after an MPI call returned an error code) was found here and fixed.",
+             "available. D22 (second completion after an MPI call returned an error code) was found here and fixed. D23 (yield_while modes on the static scheduler never complete) is a listed known finding; burst rounds keep 48-100 requests pending.",
         ref="DESIGN.md section 2, C20"),
 }
 
